@@ -205,8 +205,8 @@ TVALS = (0x00, 0x7F, 0x80, 0xFF)
 @ob('O5.1-time', 'time-valued subpackets (creation, signature expiry, key expiry)',
     'type in {2,3,9}, critical bit, length form 1/5, four octets each from {00,7F,80,FF} (datetime is C code: stated restriction)',
     cond_timeout={'q': 300, 't': 900},
-    partitions={'q': [['tid == 2', 'i0 != 1 and i1 != 1 and i2 != 1 and i3 != 1'], ['tid == 3'], ['tid == 9']],
-                't': [['tid == 2', 'i0 == %d' % k] for k in range(4)] + [['tid == 3'], ['tid == 9']]})
+    partitions={'q': [['tid == 2', 'i0 != 1 and i1 != 1 and i2 != 1 and i3 != 1']] + [['tid == %d' % t, 'lform == %d' % f] for t in (3, 9) for f in (1, 5)],
+                't': [['tid == 2', 'i0 == %d' % k] for k in range(4)] + [['tid == %d' % t, 'lform == %d' % f] for t in (3, 9) for f in (1, 5)]})
 def sp_time(tid: int, crit: bool, lform: int, i0: int, i1: int, i2: int, i3: int) -> bool:
     """
     pre: tid in (2, 3, 9)
@@ -240,7 +240,7 @@ FPR = bytes(range(0xA0, 0xB4))
 @ob('O5.1-fpr', 'fingerprint-carrying subpackets: revocation key (class, algorithm, fingerprint), issuer fingerprint, intended recipient',
     'type 12: symbolic class octet, algorithm octet and first fingerprint octet (16 nibble-boundary values; hex formatting is C code); '
     'types 33/35: version 4 and the same fingerprint octet; remaining fingerprint octets concrete', cond_timeout={'q': 300, 't': 900},
-    partitions={'q': [['tid == 12', 'f0 < 4', 'b1 // 32 == %d' % k] for k in range(8)] + [['tid == 33'], ['tid == 35']],
+    partitions={'q': [['tid == 12', 'f0 < 4', 'b1 // 32 == %d' % k, 'lform == %d' % f] for k in range(8) for f in (1, 5)] + [['tid == 33'], ['tid == 35']],
                 't': [['tid == 12', 'b1 // 32 == %d' % k] for k in range(8)] + [['tid == 33'], ['tid == 35']]})
 def sp_fpr(tid: int, crit: bool, lform: int, b0: int, b1: int, f0: int, f1: int) -> bool:
     """
